@@ -125,14 +125,17 @@ def compare(sch, native_events, interp_events):
 # ---------------------------------------------------------------------------------------------
 # symbolic histories: the witness finder.  `phases` is a list of ("calls", k) | ("close_until", K) | ("close", K)
 class SymHistory:
-    def __init__(self, su, U, phases):
+    def __init__(self, su, U, phases, ctx=None):
         import lemmas as L
         self.su = su
-        self.ctx = V.set_ctx(V.Ctx(Circuit(), U=U))
-        self.ctx.opaque_weights = False
-        self.ctx.bv_weights = True
-        self.ctx.dedupe_rows = True
-        self.ctx.compact_k = U
+        if ctx is None:
+            self.ctx = V.set_ctx(V.Ctx(Circuit(), U=U))
+            self.ctx.opaque_weights = False
+            self.ctx.bv_weights = True
+            self.ctx.dedupe_rows = True
+            self.ctx.compact_k = U
+        else:
+            self.ctx = ctx         # a second history in the same query (self-composition)
         self.I = Interp(su.prog, self.ctx, loop_bound=U)
         self.sch = M.Schema(su.prog)
         self.c = self.ctx.c
@@ -144,7 +147,7 @@ class SymHistory:
         self.assume = []
         self.phases = phases
 
-    def precreate(self):
+    def precreate(self, counts=None):
         """a symbolic number (0..U) of elements per plain type, created by guarded new_<type>() calls"""
         ctx, c = self.ctx, self.c
         pre = []
@@ -152,7 +155,7 @@ class SymHistory:
             item = self.su.prog.methods.get((self.sch.model, "new_" + t))
             if item is None or len(item["sig"]["inputs"]) != 1:
                 continue          # enum types have no argument-less constructor
-            n = ctx.fresh_int("pre.%s" % t, 0, ctx.U)
+            n = counts[t] if counts is not None else ctx.fresh_int("pre.%s" % t, 0, ctx.U)
             for i in range(ctx.U):
                 r = self.I.call_fn(item, V.int_lt(i, n), [], self_val=self.m)
                 if getattr(self, "on_alt", None) is not None:
@@ -177,7 +180,7 @@ class SymHistory:
             alts.append((name, args))
         self.steps.append(("call", sel, alts))
 
-    def sym_close(self, K, early_allowed, on_cond, on_return):
+    def sym_close(self, K, early_allowed, on_cond, on_return, guard=T):
         ctx, c = self.ctx, self.c
         conds = []
 
@@ -187,7 +190,7 @@ class SymHistory:
             on_cond(g)
             return mkbool(b)
         self.I.loop_bounds["close_until"] = K
-        r = self.I.call_fn(self.su.prog.methods[(self.sch.model, "close_until")], T, [NativeFn(cond, "cond")], self_val=self.m)
+        r = self.I.call_fn(self.su.prog.methods[(self.sch.model, "close_until")], guard, [NativeFn(cond, "cond")], self_val=self.m)
         self.steps.append(("close_until", conds, r))
         on_return(lit(r))
 
